@@ -393,3 +393,9 @@ fn _xorshift64s(a: u64) -> u64 {
     }
     x
 }
+
+// verification hook: layout-probe
+#[cfg(abyssiniandb_verif)]
+pub(crate) fn verif_xorshift64s(a: u64) -> u64 {
+    _xorshift64s(a)
+}
